@@ -15,12 +15,15 @@ Four layers (see design_notes/C10.md):
 """
 from __future__ import annotations
 
+import asyncio
 import cmath
+import inspect
 import itertools
 import json
 import math
 import os
 import random
+import re
 import signal
 import time
 import traceback
@@ -85,6 +88,12 @@ def _setup():
     from bqskit.ir.operation import Operation
     from bqskit.passes.processing.extract_diagonal import ExtractDiagonalPass
     from bqskit.passes.rules.cz2cnot import CZToCNOTPass
+    # everything a runner imports lazily is imported HERE (in the parent, before forking): an alarm that interrupts a first
+    # import inside a worker would leave a half-initialised module behind and poison every later case of that worker
+    from bqskit.ir.opt.cost.generator import CostFunctionGenerator  # noqa: F401
+    from bqskit.qis.permutation import PermutationMatrix  # noqa: F401
+    import bqskit.ir.opt.cost.functions  # noqa: F401
+    import multiprocessing.connection  # noqa: F401
     W._worker = FakeRuntime()
     REG = {
         'X': G.XGate, 'Y': G.YGate, 'Z': G.ZGate, 'H': G.HGate, 'S': G.SGate, 'Sdg': G.SdgGate, 'T': G.TGate,
@@ -1689,7 +1698,17 @@ def run_pool(tasks, procs=14):
                 continue
             out[workers[conn][1]] = res
             workers[conn][1] = None
-            feed(conn)
+            if res.get('info', {}).get('timeout'):
+                # the case was interrupted by SIGALRM at an arbitrary point: do not reuse that interpreter
+                pr = workers.pop(conn)[0]
+                try:
+                    pr.kill()
+                except Exception:
+                    pass
+                if pending:
+                    spawn()
+            else:
+                feed(conn)
         now = time.time()
         for conn in list(workers):
             pr, i, dl = workers[conn]
